@@ -117,3 +117,12 @@ Theorem C01_code_rdbi_request_2_default : forall cfg d1 d2, dids cfg = table_def
   fn_rdbi_request_2_default d1 d2 = payload_of (rdbi_make cfg true [d1; d2]).
 Proof. exact tie_rdbi_request_2_default. Qed.
 Print Assumptions C01_code_rdbi_request_2_default.
+
+(* ---- the code is the model: request_transfer_exit, clear_dynamically_defined_did (Gen/Fn_More.v) ---- *)
+From UDS Require Import Gen.Fn_More Model.Svc_Memory Proofs.Tie_more.
+Theorem C01_code_request_transfer_exit_request : forall data, fn_request_transfer_exit_request data = payload_of (rte_make data).
+Proof. exact tie_request_transfer_exit_request. Qed.
+Print Assumptions C01_code_request_transfer_exit_request.
+Theorem C01_code_clear_did_request : forall did, fn_clear_did_request did = payload_of (dddi_clear_make (Some did)).
+Proof. exact tie_clear_did_request. Qed.
+Print Assumptions C01_code_clear_did_request.
